@@ -26,7 +26,7 @@ pub enum SAct
 #[derive(Clone, Debug)]
 pub enum STop
 {
-    Acts(Vec<SAct>), AppReactor(usize, Vec<STrig>), Update, WDespawn(Ref), WDespawnRec(Ref), WRemove(Ref, usize), WInsertRaw(Ref, usize, u32), WSetParent(Ref, Ref),
+    Acts(Vec<SAct>), AppReactor(usize, Vec<STrig>), Update, ClearTrackers, WDespawn(Ref), WDespawnRec(Ref), WRemove(Ref, usize), WInsertRaw(Ref, usize, u32), WSetParent(Ref, Ref),
     Gc, Poll, FrameEnd, WSysEvent(Ref, usize, u32), WBroadcast(usize, u32), WEntityEvent(Ref, usize, u32),
     SigPrepare(Ref), SigClone(usize), SigDrop(usize), SigDropRace(usize), SigThreads(usize, usize),
 }
@@ -123,6 +123,7 @@ fn parse_top(t: &[&str]) -> Option<STop>
         ["poll"] => STop::Poll,
         ["frameend"] => STop::FrameEnd,
         ["update"] => STop::Update,
+        ["cleartrackers"] => STop::ClearTrackers,
         ["wsysevent", s, ty, pid] => STop::WSysEvent(parse_ref(s)?, num(ty)?, num(pid)?),
         ["wbroadcast", ty, pid] => STop::WBroadcast(num(ty)?, num(pid)?),
         ["wentevent", r, ty, pid] => STop::WEntityEvent(parse_ref(r)?, num(ty)?, num(pid)?),
